@@ -209,13 +209,19 @@ func TestC07(t *testing.T) {
 		}
 	}
 	// one-element tensors (shapes (1), (1,1), (1,1,1)): the kernels treat them specially
-	for _, op := range []string{"Add", "Sub", "Mul", "Div"} {
-		for _, d := range []DT{dtInt32, dtF64, dtUint8} {
+	for _, op := range arithOps {
+		for _, d := range []DT{dtInt32, dtF64, dtUint8, dtF32, dtC128, dtInt64} {
+			if !opSupports("arith", op, d) {
+				continue
+			}
 			for _, mode := range ewModes {
 				op, d, mode := op, d, mode
 				cell(t, "C07", "EW", "one-element/"+op+"/"+d.Name+"/"+mode, nCases(6, 60), func(rt *rapid.T) Case {
 					form := rapid.SampledFrom([]string{"TT", "TS", "ST"}).Draw(rt, "form")
 					via := rapid.SampledFrom([]string{"pkg", "method"}).Draw(rt, "via")
+					if op == "MinBetween" || op == "MaxBetween" {
+						via = "pkg"
+					}
 					shape := rapid.SampledFrom([][]int{{1}, {1, 1}, {1, 1, 1}}).Draw(rt, "shape")
 					c := &EWCase{Prop: "C07", Fam: "arith", Op: op, DT: d.Name, Form: form, Via: via, Mode: "safe"}
 					c.A = genOpnd(rt, shape, "contig", 1, 9, 0, "a")
@@ -444,7 +450,7 @@ func oneElementCmpCells(t *testing.T, prop string) {
 				d := rapid.SampledFrom([]DT{dtInt32, dtF64, dtUint8, dtInt64, dtF32}).Draw(rt, "dt")
 				form := rapid.SampledFrom([]string{"TT", "TS", "ST"}).Draw(rt, "form")
 				c := genCmpMode(rt, prop, op, d, form, rapid.SampledFrom([]string{"pkg", "method"}).Draw(rt, "via"), mode)
-				shape := rapid.SampledFrom([][]int{{1}, {1, 1}, {1, 1, 1}}).Draw(rt, "shape")
+				shape := cloneInts(rapid.SampledFrom([][]int{{1}, {1, 1}, {1, 1, 1}, {}}).Draw(rt, "shape"))
 				c.A = genOpnd(rt, shape, "contig", 0, 2, 0, "a1")
 				if c.B != nil {
 					b := genOpnd(rt, shape, "contig", 0, 2, 0, "b1")
